@@ -222,6 +222,62 @@ def _pairs_domain(spec):
     return None
 
 
+def coordinate_windows(idxs):
+    """per coordinate of the legal indices: the values just outside the occupied interval [lo, hi] in both directions,
+    their mirror images below zero (Python sequences accept negative positions: -1 .. -hi must NOT be taken for hi .. 1),
+    zero, and the interior values (which are outside the domain of sparse groups when combined with the other coordinates)"""
+    if not idxs or not idxs[0]:
+        return []
+    out = []
+    for j in range(len(idxs[0])):
+        col = [t[j] for t in idxs]
+        lo, hi = min(col), max(col)
+        w = {lo - 2, lo - 1, hi + 1, hi + 2, 0, -1, -2, -lo, -hi, -hi - 1, -hi - 2, -(hi // 2) if hi > 1 else -1}
+        w.update(range(lo, min(hi, lo + 6) + 1))
+        w.update(range(max(lo, hi - 2), hi + 1))
+        out.append(sorted(w))
+    return out
+
+
+def outside_neighbours(spec, idxs, rng, cap):
+    """indices that differ from a legal index in ONE coordinate, pushed out of the domain in every direction, plus a few
+    that are outside in all coordinates at once and the legal indices with the wrong number of coordinates;
+    only the ones that are not legal are returned, no repetitions, at most `cap`"""
+    if not idxs or not idxs[0]:
+        return []
+    known = set(idxs)
+    if spec["kind"] == "graph":
+        known |= {tuple(reversed(t)) for t in idxs}
+    wins = coordinate_windows(idxs)
+    base = idxs if len(idxs) <= 6 else [idxs[0], idxs[-1]] + rng.sample(idxs, 4)
+    out = []
+    for t in base:
+        for j, w in enumerate(wins):
+            for x in w:
+                c = tuple(x if i == j else y for i, y in enumerate(t))
+                if c not in known:
+                    out.append(c)
+    for _ in range(6):
+        c = tuple(rng.choice(w) for w in wins)
+        if c not in known:
+            out.append(c)
+    t = rng.choice(idxs)
+    out += [tuple(-x for x in t), t + (t[-1],), t[:-1]]
+    out = [c for c in dict.fromkeys(out) if c not in known and c != ()]
+    if len(out) > cap:
+        # keep every direction of every coordinate represented: sample, but never drop the negative mirrors
+        neg = [c for c in out if any(x < 0 for x in c)]
+        rest = [c for c in out if not any(x < 0 for x in c)]
+        rng.shuffle(neg)
+        rng.shuffle(rest)
+        out = neg[:cap // 2] + rest[:cap - min(len(neg), cap // 2)]
+    return out
+
+
+# values of the wrong type put in place of a coordinate (oracle only: the model speaks about integers and None)
+WRONG_TYPE = [1.5, -0.5, "1", "", (1,), [1], b"1", float("nan"), float("inf"), 1 + 1j, True, 1.0, 2.0, False]
+
+
 def queries_for(spec, off, g, rng, cap=60):
     """the query list for a created group (g is the real object, used only to enumerate its
     legal indices; the same list is sent to the model)"""
@@ -243,9 +299,13 @@ def queries_for(spec, off, g, rng, cap=60):
     for v in vsample:
         qs.append(("to_index", v))
         qs.append(("to_index", -v))
-    for v in (0, start - 1, -(start - 1), start + n, -(start + n), start + n + 5, start, -start):
+    for v in (0, start - 1, -(start - 1), start + n, -(start + n), start + n + 5, start, -start,
+              start - 2, -(start + n + 1), 2 * start + n, -(2 * start + n), n, -n, 2 ** 31, -2 ** 63, 2 ** 64 + start):
         qs.append(("to_index", v))
         qs.append(("contains", v))
+    # out of the domain in every direction, one coordinate at a time, through every access path
+    for t in outside_neighbours(spec, idxs, rng, 40):
+        qs += [("call", list(t)), ("indices", list(t)), ("label", list(t))]
     # illegal / wildcard patterns
     if k == "variable":
         qs += [("call", [1]), ("label", [1]), ("indices", [1]), ("indices", [None])]
@@ -461,15 +521,28 @@ def group_oracle(spec, off, rng_seed):
             if lit in g:
                 return {"contains_foreign_literal": lit}
         known = set(idxs)
-        for t in foreign_indices(spec, known, common.sub_rng(rng_seed, "foreign")):
+        outside = foreign_indices(spec, known, common.sub_rng(rng_seed, "foreign")) + \
+            outside_neighbours(spec, idxs, common.sub_rng(rng_seed, "outside"), 120)
+        for t in outside:
             if spec["kind"] == "graph" and tuple(sorted(t)) in known:
                 continue
-            r = raises_value_error(lambda: g(*t))
+            for path, fn in (("call", g), ("indices", g.indices), ("label", g.label)):
+                r = raises_value_error(lambda: fn(*t))
+                if r is not True:
+                    return {path + "_accepts_index_outside_domain": list(t), "outcome": r,
+                            "legal_indices": [list(x) for x in idxs[:12]]}
+        # 4b. far away literals, and literals / coordinates of the wrong type: never silently an identifier or an index
+        for lit in (2 ** 31, -2 ** 31, 2 ** 64 + start, -(2 ** 64) - start, 2 * start + n + 1, -(2 * start + n + 1)):
+            if abs(lit) in range(start, start + n):
+                continue
+            r = raises_value_error(lambda: g.to_index(lit))
             if r is not True:
-                return {"call_accepts_index_outside_domain": list(t), "outcome": r}
-            r = raises_value_error(lambda: g.indices(*t))
-            if r is not True:
-                return {"indices_accepts_index_outside_domain": list(t), "outcome": r}
+                return {"to_index_accepts_foreign_literal": lit, "outcome": r}
+            if lit in g:
+                return {"contains_foreign_literal": lit}
+        r = wrong_type_probe(spec, g, idxs, start)
+        if r is not None:
+            return r
         # 5. wildcard patterns
         if spec["kind"] == "block" or _pairs_domain(spec) is not None:
             arity = len(spec["ranges"]) if spec["kind"] == "block" else 2
@@ -488,6 +561,58 @@ def group_oracle(spec, off, rng_seed):
                     return {"pattern": pat, "ids": gotids}
         return None
     return oracle
+
+
+def same_index(a, b):
+    try:
+        return len(a) == len(b) and all(type(x) in (int, bool, float, complex) and x == y for x, y in zip(a, b))
+    except Exception:
+        return False
+
+
+def wrong_type_probe(spec, g, idxs, start):
+    """coordinates / literals that are not integers.  Python compares numbers by value (True == 1 == 1.0), so a value EQUAL
+    to a legal coordinate may be taken for it; anything else must not be converted into an identifier (resp. an index):
+    the call either raises or — never — answers.  Only `__call__` and `to_index`/`in` are judged: `indices()` and `label()`
+    echo their arguments (block / mapping groups accept 1.5 there; recorded in notes/C11.md, outside the typed domain)."""
+    if not idxs or not idxs[0] or spec["kind"] == "variable":
+        return None
+    ids = {t: start + pos for pos, t in enumerate(idxs)}
+    for t in (idxs[0], idxs[-1]):
+        for j in range(len(t)):
+            for w in WRONG_TYPE:
+                c = tuple(w if i == j else y for i, y in enumerate(t))
+                try:
+                    v = g(*c)
+                    if not is_scalar(v):
+                        v = list(v)
+                except Exception:
+                    continue          # rejected
+                twins = [x for x in idxs if same_index(c, x)]
+                if spec["kind"] == "graph":
+                    twins += [x for x in idxs if same_index(tuple(reversed(c)), x)]
+                if not twins:
+                    return {"call_accepts_coordinate_of_wrong_type": repr(c), "answer": repr(v)[:80]}
+                if v != ids[twins[0]]:
+                    return {"call_with_equal_valued_coordinate": repr(c), "answer": repr(v)[:80], "identifier_of_the_index": ids[twins[0]]}
+    n = len(idxs)
+    for w in [1.5, "1", None, (start,), float(start), start + 0.5, float("nan"), b"1", -float(start), [start]]:
+        try:
+            t = g.to_index(w)
+            t = tuple(t)
+        except Exception:
+            t = None
+        if t is not None:
+            ok_ = type(w) is float and w == int(w) and abs(int(w)) in range(start, start + n) and t == idxs[abs(int(w)) - start]
+            if not ok_:
+                return {"to_index_accepts_literal_of_wrong_type": repr(w), "answer": repr(t)}
+        try:
+            inside = w in g
+        except Exception:
+            inside = False
+        if inside and not (type(w) is float and w == int(w) and abs(int(w)) in range(start, start + n)):
+            return {"contains_literal_of_wrong_type": repr(w)}
+    return None
 
 
 def pattern_in_domain(spec, pat):
